@@ -438,7 +438,14 @@ pub fn gen_program_x(rng: &mut Rng, cfg: &GenCfg, want: u64) -> Program {
         let (r, w) = *rng.pick(&gens);
         let t = rng.below(ntasks as u64) as usize;
         if t == w { continue; }
-        let chk = pick_rk(rng, p.exact_only);
+        let mut chk = pick_rk(rng, p.exact_only);
+        // The injected read must not observe more than the writer's checker guards (from-scratch equality premise).
+        fn wchk_of(ops: &[Op], r: usize) -> Option<RK> {
+          for op in ops { match op { Op::Write { res, chk, .. } if *res == r => return Some(*chk), Op::If { then, els, .. } => { if let Some(k) = wchk_of(then, r).or_else(|| wchk_of(els, r)) { return Some(k); } } _ => {} } }
+          None
+        }
+        if let Some(wk) = wchk_of(&p.tasks[w].ops, r) { if !wk.determines_obs(&chk) { chk = wk; } }
+        chk = adjust_kind(chk, p.resources[r].fam, true);
         insert_op(rng, &mut p.tasks[t].ops, Op::Read { res: r, chk });
         return p;
       }
